@@ -2,6 +2,8 @@ pub mod c01;
 pub mod c01_net;
 pub mod c02;
 pub mod c02_net;
+pub mod c07;
+pub mod routerkit;
 pub mod c11;
 pub mod c12;
 pub mod c13;
@@ -45,6 +47,19 @@ pub fn all() -> Vec<PropDef> {
             run: c02::run,
             replay: c02::replay,
             child: Some(c02::child),
+        },
+        PropDef {
+            id: "C07",
+            level: "exploration",
+            rule: c07::RULE,
+            assumptions: &[
+                "responses are compared after the documented dispatch-layer normalisation (Err -> error response with the error's code/text; empty response query -> request query)",
+                "paths with malformed escapes and mount roots with trailing slashes are outside the quantifier and not generated",
+                "registry and struct mounts are not overlapped (their relative precedence is not part of the property)",
+            ],
+            run: c07::run,
+            replay: c07::replay,
+            child: None,
         },
         PropDef {
             id: "C11",
